@@ -93,6 +93,28 @@ func (s *moStub) Unmarshal(b []byte) error {
 	return nil
 }
 
+// durWrap marshals itself to a fresh slice (Marshal method) but has NO Size method of its own: it embeds a Google v2
+// message, so its size comes from the runtime.  Its own encoding writes nanos before seconds (legal, and visibly
+// not what the runtime would write); FailM makes its Marshal fail.
+type durWrap struct {
+	*durationpb.Duration
+	FailM bool
+}
+
+func (w *durWrap) Marshal() ([]byte, error) {
+	if w.FailM {
+		return nil, errNestedMarshal
+	}
+	var b []byte
+	if w.GetNanos() != 0 {
+		b = refwire.AppendVarint(refwire.AppendKey(b, 2, 0), uint64(int64(w.GetNanos())))
+	}
+	if w.GetSeconds() != 0 {
+		b = refwire.AppendVarint(refwire.AppendKey(b, 1, 0), uint64(w.GetSeconds()))
+	}
+	return b, nil
+}
+
 // LegacyMsg is a message in the style protoc-gen-go emitted before APIv2 (csproto: MessageTypeGoogleV1):
 // no ProtoReflect, XXX_ methods backed by golang/protobuf's InternalMessageInfo.
 type LegacyMsg struct {
@@ -144,6 +166,12 @@ func (n *NestedSpec) build() (msg any, fresh func() any) {
 		return &fmStub{Payload: n.Payload, FailM: n.FailM}, func() any { return &fmStub{FailU: n.FailU} }
 	case "marshalonly":
 		return &moStub{Payload: n.Payload, FailM: n.FailM}, func() any { return &moStub{FailU: n.FailU} }
+	case "marshalonly-wrapper":
+		d := &durationpb.Duration{}
+		if !n.Empty {
+			d.Seconds, d.Nanos = int64(n.J)+1, int32(len(n.S))+1
+		}
+		return &durWrap{Duration: d, FailM: n.FailM}, func() any { return &durWrap{Duration: &durationpb.Duration{}} }
 	case "gogo":
 		m := &gogodesc.DescriptorProto{}
 		if !n.Empty {
@@ -277,6 +305,8 @@ func nestedEqual(a, b any) bool {
 		return bytes.Equal(x.Payload, b.(*fmStub).Payload)
 	case *moStub:
 		return bytes.Equal(x.Payload, b.(*moStub).Payload)
+	case *durWrap:
+		return proto.Equal(x.Duration, b.(*durWrap).Duration)
 	case *timestamppb.Timestamp:
 		if x == nil { // typed nil encodes as the empty message
 			return proto.Equal(&timestamppb.Timestamp{}, b.(proto.Message))
@@ -482,7 +512,7 @@ func oracleC19(c *NCase) (f *ev.Failure) {
 	return nil
 }
 
-var c19Flavours = []string{"marshalto", "marshalonly", "gogo", "legacy", "gv2-timestamp", "gv2-duration", "gv2-struct", "gv2-string", "gv2-bytes", "gv2-descriptor", "gv2-nil", "gv2-required", "gogo-required", "gv2-required-child"}
+var c19Flavours = []string{"marshalto", "marshalonly", "gogo", "legacy", "gv2-timestamp", "gv2-duration", "gv2-struct", "gv2-string", "gv2-bytes", "gv2-descriptor", "gv2-nil", "gv2-required", "gogo-required", "gv2-required-child", "marshalonly-wrapper"}
 
 func genNCase(t *rapid.T) *NCase {
 	c := &NCase{Num: wiregen.FieldNumber().Draw(t, "num")}
@@ -533,6 +563,10 @@ func genNested(t *rapid.T, n *NestedSpec, flavour string, mayFail bool) {
 				n.FailU = true
 			}
 		}
+	case "marshalonly-wrapper":
+		if mayFail && rapid.IntRange(0, 3).Draw(t, "wfail") == 0 {
+			n.FailM = true
+		}
 	default:
 		n.Payload = wiregen.Bytes(false).Draw(t, "b")
 		if !n.Empty && rapid.IntRange(0, 5).Draw(t, "big") == 0 {
@@ -544,7 +578,7 @@ func genNested(t *rapid.T, n *NestedSpec, flavour string, mayFail bool) {
 	}
 }
 
-const ruleC19 = "case = nested message of one of the flavours {MarshalTo stub, Marshal-only stub, plain gogo (descriptor.DescriptorProto), plain pre-APIv2 Google v1 struct with XXX_ methods, plain Google v2 incl. well-known types and typed nil, proto2 message with required fields known only to Google v2 / gogo (unset => its runtime refuses to marshal it and to unmarshal the empty payload), Google v2 message without required fields of its own whose CHILD has unset required fields} x value (incl. empty; nested sizes at the 1-, 2- and 3-byte length-prefix limits, deterministic sweep for the stubs) x decoder mode {safe, fast} x decode target {fresh, already holding another value of the flavour} x encoded object {fresh, Google v2 message that held another value, was sized and marshaled, then changed in place} x 0..3 scalar fields before and after x field number up to 2^29-1 x failing nested marshaler/unmarshaler x declared length inflated beyond the buffer (by 1 .. 2^40, or set to a value at the top of the int64 / uint64 range); " +
+const ruleC19 = "case = nested message of one of the flavours {MarshalTo stub, Marshal-only stub, Marshal-only wrapper around a Google v2 message (own Marshal method, size from the runtime), plain gogo (descriptor.DescriptorProto), plain pre-APIv2 Google v1 struct with XXX_ methods, plain Google v2 incl. well-known types and typed nil, proto2 message with required fields known only to Google v2 / gogo (unset => its runtime refuses to marshal it and to unmarshal the empty payload), Google v2 message without required fields of its own whose CHILD has unset required fields} x value (incl. empty; nested sizes at the 1-, 2- and 3-byte length-prefix limits, deterministic sweep for the stubs) x decoder mode {safe, fast} x decode target {fresh, already holding another value of the flavour} x encoded object {fresh, Google v2 message that held another value, was sized and marshaled, then changed in place} x 0..3 scalar fields before and after x field number up to 2^29-1 x failing nested marshaler/unmarshaler x declared length inflated beyond the buffer (by 1 .. 2^40, or set to a value at the top of the int64 / uint64 range); " +
 	"oracle: exactly-sized sentinel-backed buffer == prefix|key|varint(len M)|M|suffix with M=csproto.Marshal(m); DecodeNested advances by exactly prefix+len, message equal, suffix decodes, nested errors propagate (errors.Is), inflated length is rejected with 0 calls of the nested decoder; " +
 	"non-trivial = non-empty nested message in a flavour other than MarshalTo, or a failing stub, or an inflated length; distinct by case content"
 
